@@ -120,6 +120,33 @@ Theorem C17_f_ge0_reading : forall x : float, f_ge0 x -> is_nan x = true \/ (0 <
 Proof. exact f_ge0_spec_lemma. Qed.
 Print Assumptions C17_f_ge0_reading.
 
+(* (4b) Finiteness of what is selected.  A sweep whose residual compares < +inf has only finite outputs:
+   a non-finite amplitude at i would leave a non-finite residual at i (residual[i] -= val * response[0]),
+   which is never touched again and makes the sum of squares NaN or +inf.  Generic from five laws ... *)
+Theorem C17_ls_deconv_finite :
+  forall (F : Type) (zero szero inf : F) (add sub mul div fmin : F -> F -> F) (neg nonneg : F -> bool)
+         (ltb : F -> F -> bool) (fin : F -> Prop),
+  fin zero ->
+  (forall s p, fin (sub s p) -> fin p) ->
+  (forall v r, fin (mul v r) -> fin v) ->
+  (forall l, ltb (sumsq F szero add mul l) inf = true -> Forall fin l) ->
+  (forall r b, ltb r b = true -> ltb r inf = true) ->
+  forall (signal response : list F) (offs las : list nat) (out : list F),
+  ls_deconv F inf ltb (nn_greedy F zero szero add sub mul div fmin neg nonneg) signal response offs las = Ok out ->
+  Forall fin out.
+Proof. exact ls_deconv_finite_sec. Qed.
+Print Assumptions C17_ls_deconv_finite.
+
+(* ... which are PROVED for binary64 (non-finite operands of + - x give non-finite results; a sum of squares
+   started at -0 is never -inf).  So, for ALL binary64 waveforms and responses and any grid (pads, wires), the
+   routine returns either NO samples (every sweep residual NaN or +inf) or exactly one sample per input sample,
+   each finite and with its sign bit clear. *)
+Theorem C17_deconv_f64_all_inputs : forall signal response offs las out,
+  ls_deconv_f signal response offs las = Ok out ->
+  (out = [] \/ length out = length signal) /\ Forall f_fin out /\ Forall f_ge0 out.
+Proof. exact deconv_f64_all_inputs_lemma. Qed.
+Print Assumptions C17_deconv_f64_all_inputs.
+
 (* (5) Scale covariance.  If x |-> sc x (multiplication by c) commutes exactly with - x / min, leaves
    0 and the comparison with 0 unchanged, and sc2 (multiplication by c^2) does the same for the sum of
    squares and the comparisons of residuals, then scaling every sample scales every output by c, the
